@@ -14,6 +14,7 @@
 -/
 import YashModel.Exec.Escape
 import YashModel.Exec.Refine
+import YashModel.Exec.FuelMono
 namespace YashModel.Exec
 
 /-! ### ★ stack_balanced: every push has its pop on every path -/
@@ -388,6 +389,50 @@ theorem shell_refines_spec (fuel : Nat) (script : List Line) :
   obtain ⟨⟨st, h⟩, hr⟩ := ref_shell fuel {} script rfl
   rw [h]
   exact ⟨rfl, rfl, hr⟩
+
+/-! ### ☆ fuel_irrelevant: the fuel index is only a termination device
+
+Every theorem of this file holds "for every fuel"; these theorems say what that quantifier means.  If
+an execution returns anything but `outOfFuel`, every larger amount of fuel returns the same state and
+the same result, so a terminating execution has exactly one outcome: the one the driver prints. -/
+
+theorem fuel_irrelevant (n k : Nat) (s : St) (c : Cmd) (h : (execCmd n s c).2 ≠ .outOfFuel) :
+    execCmd (n+k) s c = execCmd n s c :=
+  le_add (fun n => execCmd n s c) (fun x => x.2 = .outOfFuel) (fun n => (mono_all n).cmd s c) n k h
+
+theorem fuel_irrelevant_list (n k : Nat) (s : St) (l : List Item) (h : (execList n s l).2 ≠ .outOfFuel) :
+    execList (n+k) s l = execList n s l :=
+  le_add (fun n => execList n s l) (fun x => x.2 = .outOfFuel) (fun n => (mono_all n).list s l) n k h
+
+theorem fuel_irrelevant_shell (n k : Nat) (s : St) (script : List Line)
+    (h : (runShell n s script).2 ≠ .outOfFuel) : runShell (n+k) s script = runShell n s script :=
+  le_add (fun n => runShell n s script) (fun x => x.2 = .outOfFuel) (fun n => runShell_le n s script) n k h
+
+/-- a terminating command has one outcome, whatever the fuel it was run with -/
+theorem outcome_unique (n m : Nat) (s : St) (c : Cmd)
+    (hn : (execCmd n s c).2 ≠ .outOfFuel) (hm : (execCmd m s c).2 ≠ .outOfFuel) :
+    execCmd n s c = execCmd m s c := by
+  rcases Nat.le_total n m with h | h
+  · obtain ⟨k, rfl⟩ := Nat.exists_eq_add_of_le h
+    exact (fuel_irrelevant n k s c hn).symm
+  · obtain ⟨k, rfl⟩ := Nat.exists_eq_add_of_le h
+    exact fuel_irrelevant m k s c hm
+
+/-- a terminating shell run has one trace, one exit status and one way of ending -/
+theorem shell_outcome_unique (n m : Nat) (script : List Line)
+    (hn : (runShell n {} script).2 ≠ .outOfFuel) (hm : (runShell m {} script).2 ≠ .outOfFuel) :
+    runShell n {} script = runShell m {} script := by
+  rcases Nat.le_total n m with h | h
+  · obtain ⟨k, rfl⟩ := Nat.exists_eq_add_of_le h
+    exact (fuel_irrelevant_shell n k {} script hn).symm
+  · obtain ⟨k, rfl⟩ := Nat.exists_eq_add_of_le h
+    exact fuel_irrelevant_shell m k {} script hm
+
+/-- not vacuous: `while tick 0 3; do probe 1; done` terminates with fuel 40 (and not with fuel 5) -/
+example :
+    let c : Cmd := .whileLoop false [.mk (.mk false [.tick 0 3]) []] [.mk (.mk false [.probe 1]) []]
+    (execCmd 40 {} c).2 = .continue_ ∧ (execCmd 5 {} c).2 = .outOfFuel ∧ (execCmd 40 {} c).1.trace.length = 3 := by
+  decide
 
 /-! ### non-vacuity: the hypotheses above are met by concrete programs -/
 
